@@ -33,6 +33,7 @@ type Act struct {
 	V    []byte `json:"v,omitempty"`
 	End  []byte `json:"end,omitempty"`
 	N    int    `json:"n,omitempty"` // txn: expected counter digit; poll: log server (message size limit) index; compact: entries to keep
+	Off  int    `json:"off,omitempty"` // other-read: how far behind the leader's applied index the other follower cluster starts reading
 }
 
 type Case struct {
@@ -59,8 +60,21 @@ func genCase(t *rapid.T) Case {
 			c.Acts = append(c.Acts, Act{Kind: "delrange", K: rapid.SampledFrom(keys).Draw(t, "k"), End: rapid.SampledFrom([][]byte{{0}, []byte("c"), []byte("zz")}).Draw(t, "end")})
 		case k <= 10:
 			c.Acts = append(c.Acts, Act{Kind: "txn", N: rapid.IntRange(0, 3).Draw(t, "digit")})
-		case k <= 14:
+		case k <= 13:
 			c.Acts = append(c.Acts, Act{Kind: "poll", N: rapid.IntRange(0, len(replfx.LogSizes)-1).Draw(t, "server")})
+		case k == 14:
+			// another follower cluster replicating the same leader table reads a suffix of the log (it shares the leader's log cache);
+			// half of the time as the pattern "k fresh leader entries, the other cluster reads only the newest ones, then we poll"
+			if rapid.Bool().Draw(t, "pattern") {
+				nw := rapid.IntRange(2, 4).Draw(t, "fresh")
+				for j := 0; j < nw; j++ {
+					c.Acts = append(c.Acts, Act{Kind: "txn", N: rapid.IntRange(0, 3).Draw(t, "digit")})
+				}
+				c.Acts = append(c.Acts, Act{Kind: "other-read", N: rapid.IntRange(0, len(replfx.LogSizes)-1).Draw(t, "server"), Off: rapid.IntRange(1, nw-1).Draw(t, "off")},
+					Act{Kind: "poll", N: rapid.IntRange(0, len(replfx.LogSizes)-1).Draw(t, "server")})
+			} else {
+				c.Acts = append(c.Acts, Act{Kind: "other-read", N: rapid.IntRange(0, len(replfx.LogSizes)-1).Draw(t, "server"), Off: rapid.IntRange(0, 6).Draw(t, "off")})
+			}
 		case k <= 16:
 			c.Acts = append(c.Acts, Act{Kind: "compact", N: rapid.IntRange(0, 3).Draw(t, "keep")})
 		case k <= 18:
@@ -260,6 +274,25 @@ func run(c Case, o *vt.Obs) *vt.Failure {
 				o.Label("snapshot-based-catch-up")
 			}
 			o.Label("poll:" + res)
+		case "other-read":
+			ll, _, err := replfx.Indices(p.L.E, name)
+			if err != nil {
+				return vt.Failf(prop+"/leader-read-error", i, "%v", err)
+			}
+			start := uint64(1)
+			if ll+1 > uint64(a.Off) {
+				start = ll + 1 - uint64(a.Off)
+			}
+			ctx, cancel := ctxT()
+			st, err := regattapb.NewLogClient(p.Conns[a.N%len(p.Conns)]).Replicate(ctx, &regattapb.ReplicateRequest{Table: []byte(name), LeaderIndex: start})
+			for err == nil {
+				var msg *regattapb.ReplicateResponse
+				if msg, err = st.Recv(); err == nil && msg.GetCommandsResponse() == nil {
+					break // error response or the terminating empty batch
+				}
+			}
+			cancel()
+			o.Label("other-follower-read")
 		case "compact":
 			ctx, cancel := ctxT()
 			_, err := p.L.E.NodeHost.SyncRequestSnapshot(ctx, lt.ClusterID, dragonboat.SnapshotOption{OverrideCompactionOverhead: true, CompactionOverhead: uint64(a.N)})
